@@ -457,7 +457,9 @@ def sec_runner_wiring(rep):
         for tmc_mode in (0, 1, 2, 3):
             rep.cases += 1
             try:
-                r = runner.Runner(H.base_theory(MP=mp, TMC=tmc_mode), H.base_obs())
+                # (the mass is the NUCLEON mass whatever the target: x is the per-nucleon Bjorken x)
+                tgt = ("proton", "iron", "lead", {"Z": 3.0, "A": 7.0}, "isoscalar")[(tmc_mode + int(mp * 1000)) % 5]
+                r = runner.Runner(H.base_theory(MP=mp, TMC=tmc_mode), H.base_obs(TargetDIS=tgt))
                 got = (r.configs.M2target, r.configs.TMC)
                 ok = got[0] == mp**2 and got[1] == tmc_mode
                 detail = f"configs.M2target={got[0]!r} configs.TMC={got[1]!r}"
